@@ -28,10 +28,18 @@ def programs(tier, rnd: random.Random):
     for _ in range(n):                                                                                                # chains of up to three conversions
         ts = [rnd.choice(T) for _ in range(4)]
         progs.append(f"{{ {ts[0]} a = RssV; RddV = ({ts[3]})({ts[2]})({ts[1]})a; }}")
+    # conversion chains through ASSIGNMENT EXPRESSIONS (C11 6.5.16p3: the value of `b = x` is the value of b after the assignment, i.e. x
+    # converted to the type of b): `a = b = x` gives a the value (Ta)(Tb)x -- locals and registers as inner / outer destination
+    chains = []
+    for tb in T:
+        for ta in T:
+            chains.append(f"{{ {tb} b; {ta} a; a = b = RssV; RddV = a; }}")
+        chains += [f"{{ {tb} b; RddV = b = RssV; }}", f"{{ {tb} b; RdV = b = RssV; }}", f"{{ {tb} b; PdV = b = RssV; }}",
+                   f"{{ {tb} b; int64_t a; a = b = RsV; RddV = a; ReV = b; }}"]
     if tier == "quick":
         keep = [p for i, p in enumerate(progs) if i % 3 == common_off(rnd) or "clz" in p or "JUMP" in p]
-        return keep
-    return progs
+        return keep + rnd.sample(chains, 36)
+    return progs + chains
 
 
 def common_off(rnd, _c={}):
